@@ -29,7 +29,8 @@ Ltac unf :=
 Ltac red1 :=
   repeat progress
     (cbn [closed sock_closed has_session resumable wire close_socket ignore_abrupt
-          fault shutdown emit rclass rdescr andb orb negb fst snd] in *; conc).
+          fault buffering queued shutdown emit flush unbuffer send_alert_now
+          rclass rdescr andb orb negb fst snd] in *; conc).
 
 (* destruct one boolean / option scrutinee of an `if` or `match` *)
 Ltac split1 :=
@@ -43,6 +44,30 @@ Ltac split1 :=
   | |- context [match ?x with Some _ => _ | None => _ end] =>
       lazymatch x with context [if _ then _ else _] => fail | _ => destruct x eqn:? end
   end.
+
+(* the same, ignoring conditionals between traces (list-valued): enough, and much cheaper,
+   when the goal only concerns the flags of the final state *)
+Ltac split1nl :=
+  match goal with
+  | H : context [if ?b then ?x else _] |- _ =>
+      lazymatch b with context [if _ then _ else _] => fail | _ => idtac end;
+      lazymatch type of x with list _ => fail | _ => destruct b eqn:? end
+  | |- context [if ?b then ?x else _] =>
+      lazymatch b with context [if _ then _ else _] => fail | _ => idtac end;
+      lazymatch type of x with list _ => fail | _ => destruct b eqn:? end
+  | H : context [match ?x with Some _ => _ | None => _ end] |- _ =>
+      lazymatch x with context [if _ then _ else _] => fail | _ => destruct x eqn:? end
+  | |- context [match ?x with Some _ => _ | None => _ end] =>
+      lazymatch x with context [if _ then _ else _] => fail | _ => destruct x eqn:? end
+  end.
+
+Ltac wnorm :=
+  repeat rewrite <- app_assoc; repeat rewrite app_nil_r; cbn [app];
+  repeat rewrite <- app_assoc; try reflexivity.
+
+Ltac wfin :=
+  cbv [alert_pre alert_tail level_warning close_notify level_fatal] in *; red1;
+  repeat (split1; red1); wnorm.
 
 Ltac fin :=
   repeat match goal with
@@ -139,9 +164,9 @@ Theorem funnel_postcondition_all :
     /\ (has_session st = true -> keeps_resumable ly a st = false -> resumable st' = false)
     /\ has_session st' = has_session st.
 Proof.
-  intros ly dp a sf [cl sc hs rs w cs ia fl] r st' Hwf H.
+  intros ly dp a sf [cl sc hs rs w cs ia fl bf q] r st' Hwf H.
   destruct ly, dp, a; unf; red1; try discriminate;
-    fin; repeat (split1; red1; fin);
+    fin; repeat (split1nl; red1; fin);
     repeat split; intros; red1; fin; try reflexivity;
     subst; cbn [andb orb negb] in *; try rewrite orb_true_r; try reflexivity; fin;
     repeat match goal with b : bool |- _ => destruct b end;
@@ -153,17 +178,18 @@ Theorem funnel_alert_before_close :
   forall ly dp e d0 st o st' d,
     mapped_alert dp e = Some d ->
     layer_eqb ly LClose && closed st = false ->
+    queued st = [] ->
     funnel ly dp (ARaise e d0) false st = (o, st') ->
     wire st' = wire st ++ alert_pre ly
                        ++ WAlert level_fatal d :: WShutdown false :: alert_tail ly st
+    /\ queued st' = [] /\ buffering st' = false
     /\ (fault st = None -> o = Raised (mkr E_TLSLocalAlert (Some d))).
 Proof.
-  intros ly dp e d0 [cl sc hs rs w cs ia fl] o st' d Hm Hc H.
+  intros ly dp e d0 [cl sc hs rs w cs ia fl bf q] o st' d Hm Hc Hq H. cbn in Hq. subst q.
   destruct ly, dp; unf; red1; try discriminate;
     fin; repeat (split1; red1; fin);
-    (split; [cbv [alert_pre alert_tail level_warning close_notify level_fatal]; red1;
-             repeat rewrite <- app_assoc; reflexivity
-            | intros; red1; fin; try reflexivity]).
+    (split; [|split; [|split; [reflexivity | intros; red1; fin; try reflexivity]]]);
+    wfin.
 Qed.
 
 (* the same when the alert cannot be sent: socket.error, nothing on the wire, still closed *)
@@ -171,16 +197,19 @@ Theorem funnel_alert_send_failure :
   forall ly dp e d0 st o st' d,
     mapped_alert dp e = Some d ->
     layer_eqb ly LClose = false ->
+    queued st = [] ->
     funnel ly dp (ARaise e d0) true st = (o, st') ->
     o = Raised (mkr E_SockError None)
     /\ (exists tail, wire st' = wire st ++ tail /\ forallb is_shutdown_ev tail = true)
+    /\ queued st' = []
     /\ closed st' = true.
 Proof.
-  intros ly dp e d0 [cl sc hs rs w cs ia fl] o st' d Hm Hc H.
+  intros ly dp e d0 [cl sc hs rs w cs ia fl bf q] o st' d Hm Hc Hq H. cbn in Hq. subst q.
   destruct ly, dp; unf; red1; try discriminate;
     fin; repeat (split1; red1; fin);
-    (split; [reflexivity|]; split; [|reflexivity]);
-    eexists; split; reflexivity.
+    (split; [reflexivity|]; split; [|split; [wfin|reflexivity]]);
+    red1; repeat (split1; red1); eexists;
+    (split; [repeat rewrite <- app_assoc; cbn [app]; reflexivity|reflexivity]).
 Qed.
 
 (* ---- 3. only documented classes come out, for the classes the callees are specified to raise:
@@ -192,7 +221,7 @@ Theorem documented_exceptions_only_all :
     funnel ly dp (ARaise e d0) sf st = (Raised r, st') ->
     documented (rclass r) = true.
 Proof.
-  intros ly dp e d0 sf [cl sc hs rs w cs ia fl] r st' Hs Hf H. cbn in Hf. subst fl.
+  intros ly dp e d0 sf [cl sc hs rs w cs ia fl bf q] r st' Hs Hf H. cbn in Hf. subst fl.
   unfold specified_ly in Hs. apply orb_true_iff in Hs. destruct Hs as [Hs|Hs].
   - destruct dp; try discriminate; destruct e; try discriminate;
       destruct ly; unf; red1;
@@ -216,7 +245,7 @@ Theorem funnel_passes_undocumented :
         if is_pretry dp then st1
         else shutdown (layer_eqb ly LWrite && ignore_abrupt st) st1).
 Proof.
-  intros ly dp e sf [cl sc hs rs w cs ia fl] Hc Hcl.
+  intros ly dp e sf [cl sc hs rs w cs ia fl bf q] Hc Hcl.
   destruct e; try discriminate; (split; [vm_compute; reflexivity|]);
     destruct ly, dp; unf; red1; try discriminate;
     fin; repeat (split1; red1; fin); try reflexivity.
@@ -248,44 +277,46 @@ Theorem handshake_direct_protocol_error_alerts :
     is_pretry dp = false -> mapped_alert dp e = None -> wrapper_alert e = Some d ->
     funnel LHandshake dp (ARaise e d0) false st = (o, st') ->
     o = Raised (mkr E_TLSLocalAlert (Some d))
-    /\ st' = shutdown false (emit (WAlert level_fatal d) st)
-    /\ wire st' = wire st ++ [WAlert level_fatal d; WShutdown false]
+    /\ st' = shutdown false (send_alert_now d st)
+    /\ wire st' = wire st ++ queued st ++ [WAlert level_fatal d; WShutdown false]
+    /\ queued st' = [] /\ buffering st' = false
     /\ closed st' = true
     /\ (close_socket st = true -> sock_closed st' = true)
     /\ (has_session st = true -> resumable st' = false)
     /\ documented E_TLSLocalAlert = true.
 Proof.
-  intros dp e d0 [cl sc hs rs w cs ia fl] o st' d Hp Hm Hw H.
+  intros dp e d0 [cl sc hs rs w cs ia fl bf q] o st' d Hp Hm Hw H.
   destruct e; try discriminate; destruct dp; try discriminate;
     unf; red1; fin; repeat (split1; red1; fin);
     repeat split; intros; red1; fin; try reflexivity;
-    try (rewrite <- app_assoc; reflexivity);
-    subst; try rewrite orb_true_r; reflexivity.
+    try (wfin; fail);
+    subst; try rewrite orb_true_r; try reflexivity;
+    repeat (split1; red1); reflexivity.
 Qed.
 
 Corollary direct_illegal_parameter_now_alert :
   forall st,
     funnel LHandshake DDirect (ARaise E_TLSIllegalParameterException None) false st
       = (Raised (mkr E_TLSLocalAlert (Some illegal_parameter)),
-         shutdown false (emit (WAlert level_fatal illegal_parameter) st))
+         shutdown false (send_alert_now illegal_parameter st))
     /\ protocol_violation E_TLSIllegalParameterException = true
     /\ documented E_TLSIllegalParameterException = false
     /\ documented E_TLSLocalAlert = true.
-Proof. intros [cl sc hs rs w cs ia fl]. repeat split. Qed.
+Proof. intros [cl sc hs rs w cs ia fl bf q]. repeat split. Qed.
 
 Corollary direct_decryption_failed_now_alert :
   forall st,
     funnel LHandshake DDirect (ARaise E_TLSDecryptionFailed None) false st
       = (Raised (mkr E_TLSLocalAlert (Some decrypt_error)),
-         shutdown false (emit (WAlert level_fatal decrypt_error) st)).
-Proof. intros [cl sc hs rs w cs ia fl]. reflexivity. Qed.
+         shutdown false (send_alert_now decrypt_error st)).
+Proof. intros [cl sc hs rs w cs ia fl bf q]. reflexivity. Qed.
 
 Corollary parser_tls_decode_error_now_alert :
   forall st,
     funnel LHandshake DParser (ARaise E_TLSDecodeError None) false st
       = (Raised (mkr E_TLSLocalAlert (Some decode_error)),
-         shutdown false (emit (WAlert level_fatal decode_error) st)).
-Proof. intros [cl sc hs rs w cs ia fl]. reflexivity. Qed.
+         shutdown false (send_alert_now decode_error st)).
+Proof. intros [cl sc hs rs w cs ia fl bf q]. reflexivity. Qed.
 
 (* ... and when that alert cannot be sent (0bc7834): socket.error for the caller, and the
    connection is closed all the same: state = shutdown false st, nothing but the shutdown on
@@ -296,17 +327,19 @@ Theorem wrapper_alert_unsendable_closes :
     funnel LHandshake dp (ARaise e d0) true st = (o, st') ->
     o = Raised (mkr E_SockError None)
     /\ st' = shutdown false st
-    /\ wire st' = wire st ++ [WShutdown false]
+    /\ (queued st = [] -> wire st' = wire st ++ [WShutdown false])
     /\ closed st' = true
     /\ (close_socket st = true -> sock_closed st' = true)
     /\ (has_session st = true -> resumable st' = false)
     /\ documented E_SockError = true.
 Proof.
-  intros dp e d0 [cl sc hs rs w cs ia fl] o st' d Hp Hm Hw H.
+  intros dp e d0 [cl sc hs rs w cs ia fl bf q] o st' d Hp Hm Hw H.
   destruct e; try discriminate; destruct dp; try discriminate;
     unf; red1; fin; repeat (split1; red1; fin);
     repeat split; intros; red1; fin; try reflexivity;
-    subst; try rewrite orb_true_r; reflexivity.
+    try (wfin; fail);
+    subst; try rewrite orb_true_r; try reflexivity;
+    repeat (split1; red1); wnorm.
 Qed.
 
 (* the residue: every other class that is not a TLSAlert, raised in the handshake body outside
@@ -355,7 +388,7 @@ Theorem other_layers_direct_protocol_error_no_alert :
     = (Raised (mkr e d0), shutdown (layer_eqb ly LWrite && ignore_abrupt st) st)
     /\ documented e = false.
 Proof.
-  intros ly e d0 sf [cl sc hs rs w cs ia fl] d Hl Hc Hw.
+  intros ly e d0 sf [cl sc hs rs w cs ia fl bf q] d Hl Hc Hw.
   destruct e; try discriminate; (split; [|vm_compute; reflexivity]);
     destruct ly; try discriminate; unf; red1; fin; repeat (split1; red1; fin); reflexivity.
 Qed.
@@ -368,8 +401,8 @@ Corollary parser_illegal_parameter_alert :
                 | Some l => if existsb (Z.eqb illegal_parameter) l then Done
                             else Raised (mkr E_TLSFaultError None)
                 end,
-                shutdown false (emit (WAlert level_fatal illegal_parameter) st)).
-Proof. intros [cl sc hs rs w cs ia fl]. unf. red1. destruct fl; [|reflexivity].
+                shutdown false (send_alert_now illegal_parameter st)).
+Proof. intros [cl sc hs rs w cs ia fl bf q]. unf. red1. destruct fl; [|reflexivity].
        cbn [rdescr]. destruct (existsb (Z.eqb 47) l); reflexivity. Qed.
 
 (* ---- 5. holes: each hypothesis of funnel_postcondition_all is necessary ------------------ *)
@@ -380,7 +413,7 @@ Lemma generator_exit_leaves_open :
     funnel ly dp (ARaise E_GeneratorExit None) sf st
     = (Raised (mkr E_GeneratorExit None), layer_prefix ly dp (ARaise E_GeneratorExit None) st).
 Proof.
-  intros ly dp sf [cl sc hs rs w cs ia fl] Hc.
+  intros ly dp sf [cl sc hs rs w cs ia fl bf q] Hc.
   destruct ly, dp; unf; red1; try discriminate; fin; repeat (split1; red1; fin); reflexivity.
 Qed.
 
@@ -390,7 +423,7 @@ Lemma wrapper_reraises_alert_without_shutdown :
     fault st = None ->
     funnel LHandshake dp (ARaise E_TLSRemoteAlert d) sf st = (Raised (mkr E_TLSRemoteAlert d), st).
 Proof.
-  intros dp d sf [cl sc hs rs w cs ia fl] Hf. cbn in Hf. subst fl.
+  intros dp d sf [cl sc hs rs w cs ia fl bf q] Hf. cbn in Hf. subst fl.
   destruct dp; unf; red1; reflexivity.
 Qed.
 
@@ -401,7 +434,7 @@ Lemma checker_alert_leaves_connection_open :
       = (Raised (mkr E_TLSLocalAlert (Some 80)), st')
     /\ closed st' = false /\ sock_closed st' = false /\ resumable st' = true.
 Proof.
-  exists (mkcst false false true true [] true false None). eexists.
+  exists (mkcst false false true true [] true false None false []). eexists.
   split; [vm_compute; reflexivity|]. repeat split.
 Qed.
 
@@ -412,7 +445,7 @@ Lemma write_ignore_abrupt_keeps_resumable :
     funnel LWrite DDirect (ARaise e d) sf st = (Raised r, st') ->
     resumable st' = resumable st.
 Proof.
-  intros e d sf [cl sc hs rs w cs ia fl] r st' Hi H. cbn in Hi. subst ia.
+  intros e d sf [cl sc hs rs w cs ia fl bf q] r st' Hi H. cbn in Hi. subst ia.
   unf; red1; fin; repeat (split1; red1; fin); reflexivity.
 Qed.
 
@@ -421,7 +454,7 @@ Lemma write_keyboard_interrupt_leaves_open :
   forall sf st,
     funnel LWrite DDirect (ARaise E_KeyboardInterrupt None) sf st
     = (Raised (mkr E_KeyboardInterrupt None), st).
-Proof. intros sf [cl sc hs rs w cs ia fl]. unf. red1. reflexivity. Qed.
+Proof. intros sf [cl sc hs rs w cs ia fl bf q]. unf. red1. reflexivity. Qed.
 
 (* readAsync lines 329-369 are outside its try *)
 Lemma read_pretry_no_shutdown :
@@ -439,7 +472,7 @@ Lemma close_notify_keeps_resumable :
                 = (Raised (mkr E_TLSRemoteAlert (Some close_notify)), st')
                 /\ closed st' = true /\ resumable st' = resumable st.
 Proof.
-  intros l sf [cl sc hs rs w cs ia fl] Hf. cbn in Hf. subst fl.
+  intros l sf [cl sc hs rs w cs ia fl bf q] Hf. cbn in Hf. subst fl.
   destruct sf; eexists; unf; red1; rewrite orb_true_r; cbn [Z.eqb]; red1;
     (split; [reflexivity|]; split; reflexivity).
 Qed.
@@ -451,7 +484,7 @@ Lemma fault_swallows_listed_alert :
     mapped_alert dp e = Some d -> fault st = Some l -> existsb (Z.eqb d) l = true ->
     fst (funnel LHandshake dp (ARaise e d0) false st) = Done.
 Proof.
-  intros dp e d0 [cl sc hs rs w cs ia fl] l d Hm Hf Hl. cbn in Hf. subst fl.
+  intros dp e d0 [cl sc hs rs w cs ia fl bf q] l d Hm Hf Hl. cbn in Hf. subst fl.
   destruct dp; unf; red1; try discriminate;
     fin; repeat (split1; red1; fin); cbn [fst rdescr] in *; try congruence;
     rewrite Hl in *; try discriminate; reflexivity.
@@ -463,7 +496,7 @@ Lemma stop_iteration_becomes_runtime_error :
     layer_eqb ly LClose && closed st = false ->
     fst (funnel ly dp (ARaise E_StopIteration None) sf st) = Raised (mkr E_RuntimeError None).
 Proof.
-  intros ly dp sf [cl sc hs rs w cs ia fl] Hc.
+  intros ly dp sf [cl sc hs rs w cs ia fl bf q] Hc.
   destruct ly, dp; unf; red1; try discriminate; fin; repeat (split1; red1; fin); reflexivity.
 Qed.
 
@@ -474,7 +507,7 @@ Lemma record_only_classes_not_converted_by_getmsg :
     = (Raised (mkr E_TLSBadRecordMAC None), shutdown false st)
     /\ funnel LHandshake DParser (ARaise E_TLSRecordOverflow None) false st
        = (Raised (mkr E_TLSRecordOverflow None), shutdown false st).
-Proof. intros [cl sc hs rs w cs ia fl] Hf. split; unf; red1; reflexivity. Qed.
+Proof. intros [cl sc hs rs w cs ia fl bf q] Hf. split; unf; red1; reflexivity. Qed.
 
 (* ---- 6. the hypotheses are satisfiable: concrete runs -------------------------------------- *)
 Example ex_read_bad_mac :
@@ -483,21 +516,21 @@ Example ex_read_bad_mac :
   /\ funnel LRead DRecord (ARaise E_TLSBadRecordMAC None) false (init_state LRead)
      = (Raised (mkr E_TLSLocalAlert (Some 20)),
         mkcst true true true false [WAlert 2 20; WShutdown false; WShutdown false]
-              true false None).
+              true false None false []).
 Proof. repeat split. Qed.
 
 Example ex_handshake_decode_error :
   specified DParser E_DecodeError = true
   /\ funnel LHandshake DParser (ARaise E_DecodeError None) false (init_state LHandshake)
      = (Raised (mkr E_TLSLocalAlert (Some 50)),
-        mkcst true true false false [WAlert 2 50; WShutdown false] true false None).
+        mkcst true true false false [WAlert 2 50; WShutdown false] true false None false []).
 Proof. repeat split. Qed.
 
 Example ex_crash_attribute_error :
   is_crash E_AttributeError = true
   /\ funnel LHandshake DParser (ARaise E_AttributeError None) false (init_state LHandshake)
      = (Raised (mkr E_AttributeError None),
-        mkcst true true false false [WShutdown false] true false None).
+        mkcst true true false false [WShutdown false] true false None false []).
 Proof. repeat split. Qed.
 
 Example ex_predict :
@@ -514,7 +547,7 @@ Example ex_handshake_direct_decryption_failed :
   /\ wrapper_alert E_TLSDecryptionFailed = Some decrypt_error
   /\ funnel LHandshake DDirect (ARaise E_TLSDecryptionFailed None) false (init_state LHandshake)
      = (Raised (mkr E_TLSLocalAlert (Some 51)),
-        mkcst true true false false [WAlert 2 51; WShutdown false] true false None).
+        mkcst true true false false [WAlert 2 51; WShutdown false] true false None false []).
 Proof. repeat split. Qed.
 
 (* since 8b57b65 writeAsync tests `closed` before its try: TLSClosedConnectionError comes out
@@ -524,7 +557,7 @@ Lemma write_closed_pretry :
     funnel LWrite DPreTry (ARaise E_TLSClosedConnectionError None) sf st
     = (Raised (mkr E_TLSClosedConnectionError None), st)
     /\ documented E_TLSClosedConnectionError = true.
-Proof. intros sf [cl sc hs rs w cs ia fl]. split; reflexivity. Qed.
+Proof. intros sf [cl sc hs rs w cs ia fl bf q]. split; reflexivity. Qed.
 
 (* since 0ab9df1 a handshake record that cannot be sent, with a pending record that is not an
    alert, ends the handshake with the socket error after _shutdown(False) *)
@@ -532,4 +565,188 @@ Lemma failed_handshake_send_no_alert_pending :
   forall sf st,
     funnel LHandshake DRecOnly AShutRaiseSock sf st
     = (Raised (mkr E_SockError None), shutdown false (shutdown false st)).
-Proof. intros sf [cl sc hs rs w cs ia fl]. reflexivity. Qed.
+Proof. intros sf [cl sc hs rs w cs ia fl bf q]. reflexivity. Qed.
+
+(* ---- 7. _sendError writes its alert, whatever the write-buffering mode (seed S1) ------------- *)
+(* BufferedSocket queues what is sent while buffer_writes is set (the TLS <= 1.2 client has it
+   set while it reads Certificate / ServerKeyExchange / ServerHelloDone).  _sendError flushes,
+   switches the buffering off and then sends: the fatal alert is in `wire` (handed to the real
+   socket), after everything that was queued; nothing stays queued; buffering is off -- for
+   every initial buffering flag, queue and closeSocket setting. *)
+Theorem send_error_alert_is_written_not_queued :
+  forall d st,
+    sendError d false st
+    = (Raised (mkr E_TLSLocalAlert (Some d)), shutdown false (send_alert_now d st))
+    /\ wire (send_alert_now d st) = wire st ++ queued st ++ [WAlert level_fatal d]
+    /\ queued (send_alert_now d st) = []
+    /\ buffering (send_alert_now d st) = false
+    /\ wire (shutdown false (send_alert_now d st))
+       = wire st ++ queued st ++ [WAlert level_fatal d; WShutdown false]
+    /\ queued (shutdown false (send_alert_now d st)) = []
+    /\ buffering (shutdown false (send_alert_now d st)) = false.
+Proof.
+  intros d [cl sc hs rs w cs ia fl bf q].
+  repeat split; cbv [sendError]; red1; try reflexivity; destruct cs; wnorm.
+Qed.
+
+(* the same seen through a whole call: an in-body _sendError(d) at any depth of any layer *)
+Theorem funnel_send_error_alert_written :
+  forall ly dp d st o st',
+    is_pretry dp = false ->
+    layer_eqb ly LClose && closed st = false ->
+    queued st = [] ->
+    funnel ly dp (ASendError d) false st = (o, st') ->
+    wire st' = wire st ++ alert_pre ly
+                       ++ WAlert level_fatal d :: WShutdown false :: alert_tail ly st
+    /\ queued st' = [] /\ buffering st' = false
+    /\ (fault st = None -> o = Raised (mkr E_TLSLocalAlert (Some d))).
+Proof.
+  intros ly dp d [cl sc hs rs w cs ia fl bf q] o st' Hp Hc Hq H. cbn in Hq. subst q.
+  destruct ly, dp; unf; red1; try discriminate;
+    fin; repeat (split1; red1; fin);
+    (split; [|split; [|split; [reflexivity | intros; red1; fin; try reflexivity]]]);
+    wfin.
+Qed.
+
+(* ---- 8. alerts received from the peer, every level value (seed S2) ---------------------------- *)
+(* _getMsg, alert record while no alert is expected (handshake, read; write has no reads):
+   everything that is not a warning and not close_notify is treated as fatal -- level 2, but
+   also 0, 3, 255, any integer: _shutdown(False), TLSRemoteAlert, no reply *)
+Theorem received_non_warning_alert_closes :
+  forall ly dp level descr sf st o st',
+    level <> level_warning -> descr <> close_notify ->
+    layer_eqb ly LClose = false -> fault st = None ->
+    funnel ly dp (APeerAlert level descr) sf st = (o, st') ->
+    o = Raised (mkr E_TLSRemoteAlert (Some descr))
+    /\ closed st' = true
+    /\ (close_socket st = true -> sock_closed st' = true)
+    /\ (has_session st = true -> resumable st' = false)
+    /\ (queued st = [] ->
+        queued st' = []
+        /\ exists tail, wire st' = wire st ++ WShutdown false :: tail
+                        /\ forallb is_shutdown_ev tail = true).
+Proof.
+  intros ly dp level descr sf [cl sc hs rs w cs ia fl bf q] o st' Hl Hd Hly Hf H.
+  cbn in Hf. subst fl.
+  apply Z.eqb_neq in Hl. apply Z.eqb_neq in Hd.
+  destruct ly; try discriminate; destruct dp; unf; rewrite Hl, Hd in H; red1;
+    fin; repeat (split1; red1; fin);
+    repeat split; intros; red1; fin; try reflexivity;
+    subst; try rewrite orb_true_r; try reflexivity;
+    repeat (split1; red1); try reflexivity;
+    eexists; (split; [repeat rewrite <- app_assoc; cbn [app]; reflexivity|reflexivity]).
+Qed.
+
+(* a warning that is not close_notify: close_notify is sent back (socket errors ignored),
+   _shutdown(False), TLSRemoteAlert *)
+Theorem received_warning_alert_closes :
+  forall ly dp descr sf st o st',
+    descr <> close_notify ->
+    layer_eqb ly LClose = false -> fault st = None ->
+    funnel ly dp (APeerAlert level_warning descr) sf st = (o, st') ->
+    o = Raised (mkr E_TLSRemoteAlert (Some descr))
+    /\ closed st' = true
+    /\ (close_socket st = true -> sock_closed st' = true)
+    /\ (has_session st = true -> resumable st' = false).
+Proof.
+  intros ly dp descr sf [cl sc hs rs w cs ia fl bf q] o st' Hd Hly Hf H.
+  cbn in Hf. subst fl. apply Z.eqb_neq in Hd.
+  destruct ly; try discriminate; destruct dp; unf; rewrite Hd in H; cbn [Z.eqb Pos.eqb] in H;
+    red1; fin; repeat (split1; red1; fin);
+    repeat split; intros; red1; fin; try reflexivity;
+    subst; try rewrite orb_true_r; reflexivity.
+Qed.
+
+(* ... where the close_notify reply is really transmitted when the socket works and either the
+   endpoint is not in write-buffering mode or closeSocket makes _shutdown flush *)
+Theorem received_warning_reply_written :
+  forall ly dp descr st o st',
+    descr <> close_notify ->
+    layer_eqb ly LClose = false -> queued st = [] ->
+    buffering st = false \/ close_socket st = true ->
+    funnel ly dp (APeerAlert level_warning descr) false st = (o, st') ->
+    queued st' = []
+    /\ exists tail, wire st' = wire st ++ WAlert level_warning close_notify :: WShutdown false :: tail
+                    /\ forallb is_shutdown_ev tail = true.
+Proof.
+  intros ly dp descr [cl sc hs rs w cs ia fl bf q] o st' Hd Hly Hq Hb H.
+  cbn in Hq. subst q. apply Z.eqb_neq in Hd. cbn in Hb.
+  destruct Hb as [Hb|Hb]; subst;
+    (destruct ly; try discriminate; destruct dp; unf; rewrite Hd in H;
+     cbn [Z.eqb Pos.eqb] in H; red1; fin; repeat (split1; red1; fin);
+     (split; [wfin|]);
+     red1; repeat (split1; red1); eexists;
+     (split; [repeat rewrite <- app_assoc; cbn [app]; reflexivity|reflexivity])).
+Qed.
+
+(* hole (present in the code): in write-buffering mode without closeSocket the reply is only
+   queued and nothing ever flushes it *)
+Lemma received_warning_reply_stays_queued :
+  forall dp descr st o st',
+    descr <> close_notify -> fault st = None ->
+    buffering st = true -> close_socket st = false ->
+    funnel LHandshake dp (APeerAlert level_warning descr) false st = (o, st') ->
+    queued st' = queued st ++ [WAlert level_warning close_notify]
+    /\ exists tail, wire st' = wire st ++ tail /\ forallb is_shutdown_ev tail = true.
+Proof.
+  intros dp descr [cl sc hs rs w cs ia fl bf q] o st' Hd Hf Hb Hc H.
+  cbn in Hf, Hb, Hc. subst fl bf cs. apply Z.eqb_neq in Hd.
+  destruct dp; unf; rewrite Hd in H; cbn [Z.eqb Pos.eqb] in H;
+    red1; fin; repeat (split1; red1; fin);
+    (split; [reflexivity|]);
+    eexists; (split; [repeat rewrite <- app_assoc; cbn [app]; reflexivity|reflexivity]).
+Qed.
+
+(* close_notify, whatever its level: reply, _shutdown(True) (session stays resumable); a
+   handshake ends with TLSRemoteAlert(close_notify) [close_notify_keeps_resumable], a read
+   returns normally *)
+Theorem received_close_notify_in_read :
+  forall dp level sf st,
+    is_pretry dp = false ->
+    exists st', funnel LRead dp (APeerAlert level close_notify) sf st = (Done, st')
+                /\ closed st' = true /\ resumable st' = resumable st
+                /\ (close_socket st = true -> sock_closed st' = true).
+Proof.
+  intros dp level sf [cl sc hs rs w cs ia fl bf q] Hp.
+  destruct sf, dp; try discriminate; eexists; unf; rewrite orb_true_r; cbn [Z.eqb]; red1;
+    (split; [reflexivity|]); repeat split; intros; red1; subst;
+    try rewrite orb_true_r; reflexivity.
+Qed.
+
+(* closeAsync with closeSocket = False waits for the peer's alert and ignores its level: only
+   close_notify ends the call normally, any other description is raised after _shutdown(False) *)
+Theorem received_alert_in_close :
+  forall dp level descr sf st o st',
+    is_pretry dp = false ->
+    closed st = false ->
+    funnel LClose dp (APeerAlert level descr) sf st = (o, st') ->
+    closed st' = true
+    /\ (close_socket st = true -> sock_closed st' = true)
+    /\ (if descr =? close_notify
+        then o = Done /\ resumable st' = resumable st
+        else o = Raised (mkr E_TLSRemoteAlert (Some descr))
+             /\ (has_session st = true -> resumable st' = false)).
+Proof.
+  intros dp level descr sf [cl sc hs rs w cs ia fl bf q] o st' Hp Hc H. cbn in Hc. subst cl.
+  destruct dp; try discriminate; unf; red1; fin; repeat (split1; red1; fin);
+    repeat split; intros; red1; fin; try reflexivity;
+    subst; try rewrite orb_true_r; reflexivity.
+Qed.
+
+Example ex_received_level_255 :
+  funnel LHandshake DParser (APeerAlert 255 40) false (init_state LHandshake)
+  = (Raised (mkr E_TLSRemoteAlert (Some 40)),
+     mkcst true true false false [WShutdown false] true false None false [])
+  /\ funnel LRead DParser (APeerAlert 0 80) false (init_state LRead)
+     = (Raised (mkr E_TLSRemoteAlert (Some 80)),
+        mkcst true true true false [WShutdown false; WShutdown false] true false None false []).
+Proof. split; reflexivity. Qed.
+
+(* a TLS 1.2 client in write-buffering mode, closeSocket = False, malformed Certificate: the
+   decode_error alert is on the wire, not in the queue *)
+Example ex_buffering_decode_error_written :
+  funnel LHandshake DParser (ARaise E_DecodeError None) false
+         (mkcst true false false false [] false false None true [])
+  = (Raised (mkr E_TLSLocalAlert (Some 50)),
+     mkcst true false false false [WAlert 2 50; WShutdown false] false false None false []).
+Proof. reflexivity. Qed.
